@@ -57,15 +57,17 @@ pub fn pool_opts(tier: Tier) -> PoolOpts {
     PoolOpts { nproc: nproc(), deadline: start + wall_cap(tier), cell_limit: wall_cap(tier), exe: None }
 }
 
-pub const OVF_EXE: &str = "/verif/harness/target/ovf/verif";
+pub fn ovf_exe() -> String {
+    format!("{}/harness/target/ovf/verif", verif_dir())
+}
 
 /// Runs cells through the overflow-checked build of the harness (subject arithmetic panics on overflow as in a debug build).
 pub fn run_cells_ovf(engine: &str, cells: Vec<Value>, tier: Tier) -> Vec<Option<Value>> {
-    if !std::path::Path::new(OVF_EXE).exists() {
+    if !std::path::Path::new(&ovf_exe()).exists() {
         return cells.iter().map(|_| Some(json!({"machinery_error": "overflow-checked harness binary missing (./check build thorough)"}))).collect();
     }
     let mut o = pool_opts(tier);
-    o.exe = Some(OVF_EXE.to_string());
+    o.exe = Some(ovf_exe());
     run_cells(engine, cells, &o)
 }
 
@@ -210,6 +212,7 @@ fn replay(path: &str) -> i32 {
 }
 
 fn check_main(id: &str, tier: Tier) -> i32 {
+    let vd = verif_dir();
     let t0 = Instant::now();
     let seed: i64 = std::env::var("VERIF_SEED").ok().and_then(|s| s.parse().ok()).unwrap_or(0);
     let Some(mut out) = run_check(id, tier) else {
@@ -236,8 +239,8 @@ fn check_main(id: &str, tier: Tier) -> i32 {
         }
     }
     new_v.sort_by_key(|v| v.weight);
-    let _ = std::fs::create_dir_all(format!("{VERIF_DIR}/replays"));
-    let _ = std::fs::create_dir_all(format!("{VERIF_DIR}/evidence"));
+    let _ = std::fs::create_dir_all(format!("{vd}/replays"));
+    let _ = std::fs::create_dir_all(format!("{vd}/evidence"));
     let mut printed = std::collections::BTreeSet::new();
     let mut nprint = 0;
     for v in &new_v {
@@ -245,7 +248,7 @@ fn check_main(id: &str, tier: Tier) -> i32 {
             continue;
         }
         nprint += 1;
-        let path = format!("{VERIF_DIR}/replays/{id}-{}-{nprint}.json", tier.name());
+        let path = format!("{vd}/replays/{id}-{}-{nprint}.json", tier.name());
         let _ = std::fs::write(&path, serde_json::to_string_pretty(&v.to_json()).unwrap());
         println!("VIOLATION property={id} replay={path}");
         println!("  clause={} {}", v.clause, v.what);
@@ -254,7 +257,7 @@ fn check_main(id: &str, tier: Tier) -> i32 {
         }
     }
     for (kid, (k, v, n)) in &known_hits {
-        let path = format!("{VERIF_DIR}/replays/known-{kid}.json");
+        let path = format!("{vd}/replays/known-{kid}.json");
         let _ = std::fs::write(&path, serde_json::to_string_pretty(&v.to_json()).unwrap());
         println!("KNOWN-FINDING: property={id} {} [{kid}; re-observed in {n} recorded executions; lightest replay {path}]", k.what);
     }
@@ -289,7 +292,7 @@ fn check_main(id: &str, tier: Tier) -> i32 {
         "violations": new_v.len(),
         "known_findings_reobserved": known_hits.iter().map(|(k, (_, _, n))| json!({"id": k, "executions": n})).collect::<Vec<_>>(),
     });
-    let evp = format!("{VERIF_DIR}/evidence/{id}.json");
+    let evp = format!("{vd}/evidence/{id}.json");
     if std::fs::write(&evp, serde_json::to_string_pretty(&ev).unwrap()).is_err() {
         eprintln!("cannot write {evp}");
         return 2;
